@@ -4,6 +4,7 @@
 
     c07.verify  scriptSig scriptPubKey flags tx inIdx   → `<model> ~ <ref>`   (see Driver/C06.lean)
     c07.eval    script stack flags tx inIdx             → `<model> ~ <ref>`
+    c07.seq     (kind a0 a1 flags tx inIdx txref)*      → step replies joined by ` ;; `
 -/
 import Driver.Util
 import Driver.C06
@@ -15,6 +16,7 @@ def handle (op : String) (args : List String) : Option String :=
   match op with
   | "c07.verify" => C06.handle "c06.verify" args
   | "c07.eval" => C06.handle "c06.eval" args
+  | "c07.seq" => C06.handle "c06.seq" args
   | _ => none
 
 end Driver.C07
